@@ -6,6 +6,7 @@
 (*            strictw (strict constraint, many iterations), nearest (TRUE when the statement   *)
 (*            claims the Euclidean-nearest limit for this family mix), tolu, ctol, test]       *)
 (*  PwlConv  [cfg (PwlOps), den, w0, w, tolu, test]   monotonicity + bounds, many iterations   *)
+(*  PwlFixed [cfg (PwlOps), den, w0, w, tolu]   a feasible kernel (one unit of a multi-unit call) *)
 EXTENDS LatticeOps, TraceBase
 
 VARIABLE l
@@ -55,7 +56,14 @@ PwlClauses(e) ==
           DotI(g, [n \in 1..Len(e.w) |-> y[n] * e.den - e.w[n]], Len(e.w)) > e.vtol
      THEN {"PwlNearest"} ELSE {}
 
+\* PWL: a kernel that satisfies every configured constraint (monotonicity, convexity, bounds, clamps) comes back unchanged
+PwlFixedClauses(e) ==
+  LET c == [e.cfg EXCEPT !.omin = Norm(e.cfg.omin[1], e.cfg.omin[2]), !.omax = Norm(e.cfg.omax[1], e.cfg.omax[2]),
+                          !.len = [n \in 1..Len(e.cfg.len) |-> Norm(e.cfg.len[n][1], e.cfg.len[n][2])]]
+  IN IF P!Feasible(c, FxSeq(e.w0, e.den)) /\ ~NearInts(e.w, e.w0, e.tolu) THEN {"PwlFeasibleFixed"}
+     ELSE IF ~P!Feasible(c, FxSeq(e.w0, e.den)) THEN {"DRIFT:PwlFixedInputNotFeasible"} ELSE {}
 Clauses(e) == CASE e.ev = "Dyk" -> DykClauses(e)
+                [] e.ev = "PwlFixed" -> PwlFixedClauses(e)
                 [] e.ev = "Conv" -> ConvClauses(e)
                 [] e.ev = "PwlConv" -> PwlClauses(e)
                 [] e.ev = "Raised" -> {"Raised"}
